@@ -463,7 +463,8 @@ struct DesignGen {
 		} else if (k < 55) { UInt a = v(); size_t w = a.width().bits(); size_t sw = 1 + rng.below(w); size_t off = rng.below(w - sw + 1);
 			UInt r = a(off, BitWidth{(unsigned)sw}); maybeName(r); vecs.push_back(r);
 		} else if (k < 58) { UInt a = v(); Bit r = a[rng.below(a.width().bits())]; bits.push_back(r);
-		} else if (k < 62) { UInt a = v(); UInt r = rng.chance(1, 2) ? UInt(a << (int)rng.below(3)) : UInt(a >> (int)rng.below(3)); vecs.push_back(r);
+		} else if (k < 60) { UInt a = v(); UInt r = rng.chance(1, 2) ? UInt(a << (int)rng.below(3)) : UInt(a >> (int)rng.below(3)); vecs.push_back(r);
+		} else if (k < 62) { UInt a = v(); UInt amt = fit(v(), 1 + rng.below(3)); UInt r = rng.chance(1, 2) ? zshl(a, amt) : rotr(a, amt); vecs.push_back(r);
 		} else if (k < 66) { // read-modify-write of a slice
 			UInt a = v(); size_t w = a.width().bits(); size_t sw = 1 + rng.below(w); size_t off = rng.below(w - sw + 1);
 			a(off, BitWidth{(unsigned)sw}) = fit(v(), sw); vecs.push_back(a);
@@ -480,6 +481,17 @@ struct DesignGen {
 			IF (en) cnt = nxt;
 			cnt = reg(cnt, 0);
 			maybeName(cnt); vecs.push_back(cnt);
+		} else if (k < 82 && depth < 2) { // a small memory: read port, conditional write port (sometimes with a constant-zero enable)
+			size_t aw = 2 + rng.below(2), dw = 1 + rng.below(5);
+			Memory<UInt> mem(1ull << aw, BitWidth{(unsigned)dw});
+			if (rng.chance(1, 2)) mem.noConflicts();
+			UInt addr = fit(v(), aw);
+			UInt rd = mem[addr];
+			Bit we = rng.chance(1, 4) ? Bit('0') : b();
+			UInt waddr = rng.chance(1, 2) ? addr : fit(v(), aw);
+			IF (we) mem[waddr] = fit(v(), dw);
+			if (rng.chance(1, 2)) rd = reg(rd);
+			maybeName(rd); vecs.push_back(rd);
 		} else if (k < 90 && depth < 3) { // conditional assignment
 			UInt x = v(); size_t w = x.width().bits();
 			UInt y = x;
